@@ -1,7 +1,9 @@
 package fuzzer
 
 import (
+	"fmt"
 	"math/rand"
+	"regexp"
 
 	"github.com/smarthome-go/homescript/v3/homescript/analyzer/ast"
 )
@@ -20,7 +22,24 @@ type Transformer struct {
 	// Keeps track of how many ast nodes the transformewr already changed.
 	modifications uint
 
+	// Words of the program text that is being transformed: identifiers which generated code must not shadow.
+	usedNames map[string]struct{}
+
 	Out string
+}
+
+var identifierPattern = regexp.MustCompile(`[A-Za-z_][A-Za-z0-9_]*`)
+
+// Returns `base`, or `base_1`, `base_2`... if the program which is being transformed already uses that name
+// (a generated `let count_once` / `for _i` around a statement would otherwise shadow the program's own variable).
+func (self *Transformer) freshName(base string) string {
+	name := base
+	for i := 1; ; i++ {
+		if _, used := self.usedNames[name]; !used {
+			return name
+		}
+		name = fmt.Sprintf("%s_%d", base, i)
+	}
 }
 
 func NewTransformer(seed int64) Transformer {
@@ -44,6 +63,11 @@ func (self *Transformer) TransformPasses(tree ast.AnalyzedProgram, passes int) [
 }
 
 func (self *Transformer) Transform(tree ast.AnalyzedProgram) ast.AnalyzedProgram {
+	self.usedNames = make(map[string]struct{})
+	for _, word := range identifierPattern.FindAllString(tree.String(), -1) {
+		self.usedNames[word] = struct{}{}
+	}
+
 	output := ast.AnalyzedProgram{
 		Imports:   make([]ast.AnalyzedImport, 0),
 		Types:     make([]ast.AnalyzedTypeDefinition, 0), // Should not transform these, stuff will break
